@@ -73,6 +73,8 @@ def run(ctx):
     deg += [dict(job(D, g, m, None, seeds[0], target=t), noise_scale=0.0) for D in Ds[:2] for g in ("lin", "log") for m in ("decl", "spec") for t in ("const", "plateau", "sphere_in")]
     st = explore(deg, ["ans", "noise"], 0, sink, stats=st, name="degenerate-landscapes/b0")
     sto = [dict(job(D, "lin", m, c, seeds[0], opts={"stobads": True}), gamma=g) for D in Ds[:2] for m in ("auto", "decl", "spec") for c in (None, "ball") for g in (None, 5.0, 50.0)]
+    # noisy modes with empty search sets (thin feasible band) under the incumbent rules that judge an "improvement" by uncertainty alone
+    sto += [job(D, "lin", m, "slab", seeds[0], opts=o) for D in (1, 2) for m in ("decl", "spec", "auto") for o in ({"stobads": True}, {"improvement_quantile": 0.7}, {"improvement_quantile": 0.3})]
     st = explore(sto, ["noise"], 0, sink, stats=st, name="stobads/b0")
     # (c) budget windows above the initial design x final samples (noisy) and deterministic
     n0 = {}
